@@ -192,49 +192,49 @@ def _reads(fn, expr):
     return any(unparse(n) == expr for n in ast.walk(fn.node))
 
 
-def r9_4(prog, rep):
+def r9_4(prog, rep, rule="R9.4"):
     f = prog.fn("terms.terms.Model.var_names")
     summ = shared.union_summary(f)
     if summ is None:
-        rep.defer(f"R9.4: {f.qual} builds its set in a way the union algebra does not model")
+        rep.defer(f"{rule}: {f.qual} builds its set in a way the union algebra does not model")
         summ = frozenset()
     each = {c for c in summ if c[0] == "each"}
-    obl(rep, f, f.node, "R9.4", ("each", "self.terms", "$.var_names", None) in each and len(each) == 1,
+    obl(rep, f, f.node, rule, ("each", "self.terms", "$.var_names", None) in each and len(each) == 1,
         "Model.var_names collects from every term in self.terms", f"contributions {sorted(map(str, summ))}",
         f"Model.var_names does not unite the variables of all of self.terms, unfiltered: contributions {sorted(map(str, summ))}")
     t = prog.fn("terms.terms.Model.terms")
     rets = [n for n in walk_local(t.node) if isinstance(n, ast.Return)]
-    obl(rep, t, t.node, "R9.4", len(rets) == 1 and unparse(rets[0].value) in ("self.common_terms + self.group_terms", "self.group_terms + self.common_terms"),
+    obl(rep, t, t.node, rule, len(rets) == 1 and unparse(rets[0].value) in ("self.common_terms + self.group_terms", "self.group_terms + self.common_terms"),
         "Model.terms = common terms + group-specific terms", unparse(rets[0].value) if rets else "",
         f"Model.terms returns `{unparse(rets[0].value) if rets else None}`: variables of some terms are not counted as used")
     resp = {c for c in summ if c[0] == "one" and c[1] == "self.response.var_names"}
     okr = len(resp) == 1 and next(iter(resp))[2] in ("self.response is not None", "self.response", "not (self.response is None)", "not (not self.response)")
-    obl(rep, f, f.node, "R9.4", okr, "Model.var_names includes the response's variables", "",
+    obl(rep, f, f.node, rule, okr, "Model.var_names includes the response's variables", "",
         "the response is not counted as a used variable (its missing values would not be filtered)")
-    obl(rep, f, f.node, "R9.4", len(summ) == 2 or not okr, "Model.var_names returns exactly those two contributions", nontrivial=False)
+    obl(rep, f, f.node, rule, len(summ) == 2 or not okr, "Model.var_names returns exactly those two contributions", nontrivial=False)
     g = prog.fn("terms.terms.GroupSpecificTerm.var_names")
     sg = shared.union_summary(g)
     if sg is None:
-        rep.defer(f"R9.4: {g.qual} builds its set in a way the union algebra does not model")
-    obl(rep, g, g.node, "R9.4", sg is None or sg == frozenset({("one", "self.expr.var_names", None), ("one", "self.factor.var_names", None)}),
+        rep.defer(f"{rule}: {g.qual} builds its set in a way the union algebra does not model")
+    obl(rep, g, g.node, rule, sg is None or sg == frozenset({("one", "self.expr.var_names", None), ("one", "self.factor.var_names", None)}),
         "GroupSpecificTerm.var_names = variables of the effect united with those of the factor", str(sorted(map(str, sg or []))),
         f"GroupSpecificTerm.var_names omits the effect or the grouping factor: contributions {sorted(map(str, sg or []))}")
     tt = prog.fn("terms.terms.Term.var_names")
     st = shared.union_summary(tt)
     if st is None:
-        rep.defer(f"R9.4: {tt.qual} builds its set in a way the union algebra does not model")
-    obl(rep, tt, tt.node, "R9.4", st is None or st == frozenset({("each", "self.components", "$.var_names", None)}),
+        rep.defer(f"{rule}: {tt.qual} builds its set in a way the union algebra does not model")
+    obl(rep, tt, tt.node, rule, st is None or st == frozenset({("each", "self.components", "$.var_names", None)}),
         "Term.var_names unions over all components, unfiltered", str(sorted(map(str, st or []))),
         f"Term.var_names does not cover every component of an interaction: contributions {sorted(map(str, st or []))}")
     r = prog.fn("terms.terms.Response.var_names")
     rets = [n for n in walk_local(r.node) if isinstance(n, ast.Return)]
-    obl(rep, r, r.node, "R9.4", len(rets) == 1 and unparse(rets[0].value) == "self.term.var_names", "Response.var_names delegates to its term")
+    obl(rep, r, r.node, rule, len(rets) == 1 and unparse(rets[0].value) == "self.term.var_names", "Response.var_names delegates to its term")
     v = prog.fn("terms.variable.Variable.var_names")
     rets = [n for n in walk_local(v.node) if isinstance(n, ast.Return)]
-    obl(rep, v, v.node, "R9.4", len(rets) == 1 and unparse(rets[0].value) == "{self.name}", "Variable.var_names = {name}")
+    obl(rep, v, v.node, rule, len(rets) == 1 and unparse(rets[0].value) == "{self.name}", "Variable.var_names = {name}")
     cv = prog.fn("terms.call.Call.var_names")
     rets = [n for n in walk_local(cv.node) if isinstance(n, ast.Return)]
-    obl(rep, cv, cv.node, "R9.4", len(rets) == 1 and unparse(rets[0].value) == "set(CallVarsExtractor(self).get())",
+    obl(rep, cv, cv.node, rule, len(rets) == 1 and unparse(rets[0].value) == "set(CallVarsExtractor(self).get())",
         "Call.var_names walks the call tree with CallVarsExtractor")
     # visitor coverage, from the inferred field types
     te = TypeEngine(prog)
@@ -260,7 +260,7 @@ def r9_4(prog, rep):
         if acc is not None:
             target = te._trampoline(acc)
         ok = target is not None and target in ext.methods
-        rep.check(ok, "R9.4", cls.where, cls.qual, f"{cls.name}.accept -> {target}, defined by CallVarsExtractor", "",
+        rep.check(ok, rule, cls.where, cls.qual, f"{cls.name}.accept -> {target}, defined by CallVarsExtractor", "",
                   f"CallVarsExtractor has no {target}: variables under a {cls.name} node are not counted as used")
         if not ok:
             continue
@@ -275,23 +275,23 @@ def r9_4(prog, rep):
                     src = unparse(n.generators[0].iter)
                     if src in (f"{p}.{fld}", f"{p}.{fld}.values()") and unparse(n.elt) == f"{unparse(n.generators[0].target)}.accept(self)":
                         visited = True
-            obl(rep, vm, vm.node, "R9.4", bool(reads) and visited,
+            obl(rep, vm, vm.node, rule, bool(reads) and visited,
                 f"{target} visits every child in `{cls.name}.{fld}`", "child-bearing field derived from the inferred field types",
                 f"{target} does not traverse `{cls.name}.{fld}`: variables used there (e.g. keyword arguments) are not selected, "
                 "their missing values are ignored and the lookup may fail")
         # the results of all traversed fields are returned
         rets = [n for n in walk_local(vm.node) if isinstance(n, ast.Return)]
-        obl(rep, vm, vm.node, "R9.4", len(rets) == 1 and not cfg_of(vm).falls_off(), f"{target} returns its findings", nontrivial=False)
+        obl(rep, vm, vm.node, rule, len(rets) == 1 and not cfg_of(vm).falls_off(), f"{target} returns its findings", nontrivial=False)
     # leaf: variable name
     lv = ext.methods.get("visitLazyVariable")
     rets = [n for n in walk_local(lv.node) if isinstance(n, ast.Return)] if lv else []
-    obl(rep, lv, lv.node, "R9.4", len(rets) == 1 and unparse(rets[0].value) == f"{lv.params[1]}.name",
+    obl(rep, lv, lv.node, rule, len(rets) == 1 and unparse(rets[0].value) == f"{lv.params[1]}.name",
         "visitLazyVariable returns the variable's name")
     lval = ext.methods.get("visitLazyValue")
     rets = [n for n in walk_local(lval.node) if isinstance(n, ast.Return)] if lval else []
     ok = len(rets) == 1 and isinstance(rets[0].value, (ast.Constant, ast.List)) and (not isinstance(rets[0].value, ast.List) or not rets[0].value.elts) \
         and (not isinstance(rets[0].value, ast.Constant) or rets[0].value.value in ("", None))
-    obl(rep, lval, lval.node if lval else ext.node, "R9.4", ok, "visitLazyValue contributes no variable name (a literal is not a column)",
+    obl(rep, lval, lval.node if lval else ext.node, rule, ok, "visitLazyValue contributes no variable name (a literal is not a column)",
         unparse(rets[0].value) if rets else "",
         f"visitLazyValue returns `{unparse(rets[0].value) if rets else None}`: a string literal in a call (e.g. binary(g, 'c')) is counted as a used "
         "variable, so an unrelated column of that name enters the missing-value filter")
@@ -300,7 +300,7 @@ def r9_4(prog, rep):
     rets = [n for n in walk_local(vc.node) if isinstance(n, ast.Return)]
     names = {n.id for n in ast.walk(rets[0].value) if isinstance(n, ast.Name)} if rets else set()
     defs = {unparse(s.targets[0]) for s in walk_local(vc.node) if isinstance(s, ast.Assign)}
-    obl(rep, vc, vc.node, "R9.4", bool(defs) and defs <= names, "visitLazyCall returns the names from positional and keyword arguments",
+    obl(rep, vc, vc.node, rule, bool(defs) and defs <= names, "visitLazyCall returns the names from positional and keyword arguments",
         f"returned: {sorted(names)}", f"visitLazyCall computes {sorted(defs)} but returns only {sorted(names)}")
     # back-quoted names are stripped identically
     forms = {}
@@ -312,5 +312,5 @@ def r9_4(prog, rep):
     vals = list(forms.values())
     ok = all(v == vals[0] for v in vals) and vals[0] == ["expr.expression.lexeme[1:-1]"]
     f = prog.fn("terms.call_resolver.CallResolver.visitQuotedNameExpr")
-    obl(rep, f, f.node, "R9.4", ok, "back-quoted names are stripped by the same [1:-1] where they are resolved and where they are counted",
+    obl(rep, f, f.node, rule, ok, "back-quoted names are stripped by the same [1:-1] where they are resolved and where they are counted",
         str(vals[0]), f"back-quote stripping differs between the resolvers and the extractor: {forms}")
